@@ -4,7 +4,7 @@ from symx.runner import Ob
 ID = "C25"
 LG = "breezy.log"
 FUNCTIONS = [LG + ":_linear_view_revisions", LG + ":_compute_revno_str", LG + ":reverse_by_depth", LG + ":_rebase_merge_depth", LG + ":_DefaultLogGenerator.iter_log_revisions",
-             LG + ":LogRevision.__init__"]
+             LG + ":LogRevision.__init__", LG + ":_generate_all_revisions", LG + ":_filter_revisions_touching_path"]
 STUBS = ["log_generator obligation: _DefaultLogGenerator built with object.__new__; its revision iterator is replaced by a "
          "stub that yields the (symbolic-depth) view in batches"]
 ASSUMPTIONS = ["input is a merge-sorted view: depths >= 0 and a depth never exceeds its predecessor's by more than one "
@@ -95,6 +95,60 @@ def ob_rebase(cx):
 class _Rev:
     def __init__(self, nparents):
         self.parent_ids = [b"p"] * nparents
+
+
+def ob_delayed_graph(cx):
+    """_generate_all_revisions: listing a range with the merge graph loaded lazily (non-merge revisions first, the graph
+    view from the first merge on) gives the same revisions as loading the graph at once, for any placement of the merges -
+    in particular when the LOWER limit of the range is itself a merge."""
+    L = cx.mod(LG)
+    T = cx.truth
+    n = cx.choose("mainline", 1, cx.p("n"))
+    merges = [cx.bool("is_merge%d" % k) for k in range(n + 1)]           # index = revno, 1..n
+    lo = cx.choose("start", 1, n)
+    hi = cx.choose("end", lo, n)
+    use_start = bool(cx.choose("has_start", 0, 1))
+
+    def rid(k):
+        return b"main-%d" % k
+
+    def linear(branch, start_rev_id, end_rev_id, exclude_common_ancestry=False):
+        k = int(end_rev_id.split(b"-")[1])
+        stop = int(start_rev_id.split(b"-")[1]) if start_rev_id is not None else 1
+        while k >= stop:
+            yield rid(k), str(k), 0
+            k -= 1
+
+    def graph_view(branch, start_rev_id, end_rev_id, rebase_initial_depths=True, exclude_common_ancestry=False):
+        for rev_id, revno, depth in linear(branch, start_rev_id, end_rev_id):
+            yield rev_id, revno, depth
+            k = int(revno)
+            if T(merges[k]):
+                yield b"merged-by-%d" % k, "%d.1.1" % (k - 1), 1
+    L._linear_view_revisions = linear
+    L._graph_view_revisions = graph_view
+    L._has_merges = lambda branch, rev_id: T(merges[int(rev_id.split(b"-")[1])])
+
+    class Graph:
+        @staticmethod
+        def is_ancestor(a, b):
+            return True
+
+    class Branch:
+        class repository:
+            get_graph = staticmethod(lambda: Graph)
+    start_id = rid(lo) if use_start else None
+    direction = cx.pick("direction", ["reverse", "forward"])
+    lazy = list(L._generate_all_revisions(Branch, start_id, rid(hi), direction, True))
+    eager = list(L._generate_all_revisions(Branch, start_id, rid(hi), direction, False))
+    cx.require(lazy == eager, "listing with the graph loaded lazily %r differs from the listing with the graph loaded at once %r" %
+               ([r[1] for r in lazy], [r[1] for r in eager]))
+    low = lo if use_start else 1
+    if T(merges[low]) and hi > low and not any(T(merges[k]) for k in range(low + 1, hi + 1)):
+        cx.cover("only_the_lower_limit_is_a_merge")
+    if any(r[2] for r in eager):
+        cx.cover("merged_revisions_listed")
+    cx.observe("n", len(eager))
 
 
 def ob_generator(cx):
@@ -314,6 +368,10 @@ def obligations(tier):
            bounds="views of <= %(n)d revisions, symbolic depths constrained to merge-sorted profiles" % p),
         Ob("rebase_merge_depth", ob_rebase, [LG], dict(n=4 if q else 5), to, 1, ["rebased", "unchanged"],
            bounds="views of <= %d revisions with unbounded non-negative symbolic depths" % (4 if q else 5)),
+        Ob("delayed_graph", ob_delayed_graph, [LG], dict(n=4 if q else 6), to, 1,
+           ["only_the_lower_limit_is_a_merge", "merged_revisions_listed"],
+           bounds="mainline of <= %d revisions, each a merge or not (symbolic), any sub-range with or without a lower limit, both "
+                  "directions" % (4 if q else 6)),
         Ob("log_generator", ob_generator, [LG], dict(n=4 if q else 5), to, 3 if q else 1, ["one_level", "limited", "hidden"],
            bounds="iter_log_revisions over a stub revision iterator: views of <= %d revisions with symbolic merge depths, "
                   "symbolic levels 0..3, symbolic limit (or none), omit_merges on/off, batch sizes 1..3" % (4 if q else 5)),
